@@ -4,9 +4,11 @@ package main
 
 import (
 	"context"
+	"encoding/json"
 	"fmt"
 	"math/rand"
 	"net/http"
+	"net/http/httptest"
 	"sort"
 	"strings"
 	"sync"
@@ -53,7 +55,7 @@ var pollKinds = []string{"v1", "v1", "v1", "v2", "v3", "vc", "vc", "syntax", "ru
 func runC10(cfg runCfg) error {
 	r := rand.New(rand.NewSource(cfg.seed))
 	sum := &summary{Property: "C10", Seed: cfg.seed, Features: map[string]int{}, CaseInputs: map[string]interface{}{},
-		Rule: "random histories (4..12 events) over 4 services: EPoll with a per-service outcome in {same/new valid schema (3 versions), version conflicting with other services' conflicting versions, syntax error, rule violation, unreachable} and ESet replacing the service list (add/remove/keep) followed by its forced poll; several services fail in one poll; after EVERY event the published MergedSchema/Locations/IsBoundary/BoundaryQueries, the service map and the invalid-schema gauge are read back; non-trivial = the history contains a failure followed by a recovery, a conflict, or a list change"}
+		Rule: "random histories (4..12 events) over 4 services: EPoll with a per-service outcome in {same/new valid schema (3 versions), version conflicting with other services' conflicting versions, syntax error, rule violation, unreachable} and ESet replacing the service list (add/remove/keep) followed by its forced poll; several services fail in one poll; after EVERY event the published MergedSchema/Locations/IsBoundary/BoundaryQueries, the service map and the invalid-schema gauge are read back, and 16 fixed probe queries are sent through the public HTTP endpoint (a probe field is refused iff it is not in the published schema); non-trivial = the history contains a failure followed by a recovery, a conflict, or a list change"}
 	w := &caseWriter{dir: cfg.out, shard: 40, check: "check_poll_case", imports: "From V Require Import Base.Util Model.Poll Corr.PollCheck."}
 	distinct := map[string]bool{}
 	const nsvc = 4
@@ -107,6 +109,11 @@ func runC10(cfg runCfg) error {
 			}
 			return u[7:9] + ":" + k
 		}
+		// the public endpoint on top of the same executable schema: the SAME probe texts are sent after every event, so
+		// nothing the HTTP layer remembers about a text may outlive the schema it was checked against
+		router := bramble.NewGateway(es, nil).Router(&bramble.Config{})
+		probeOK := true
+		probeDetail := ""
 		nev := 4 + r.Intn(9)
 		var events, observed []string
 		var hist []string
@@ -220,6 +227,28 @@ func runC10(cfg runCfg) error {
 					}
 				}
 			}
+			// validation at the public endpoint follows the published schema: a probe field is refused iff it is not published
+			published := map[string]bool{}
+			if es.MergedSchema != nil && es.MergedSchema.Query != nil {
+				for _, f := range es.MergedSchema.Query.Fields {
+					published[f.Name] = true
+				}
+			}
+			for i := range urls {
+				for _, k := range []string{"v1", "v2", "v3", "vc"} {
+					fn := fmt.Sprintf("f%d_%s", i+1, k)
+					rec := httptest.NewRecorder()
+					body, _ := json.Marshal(map[string]interface{}{"query": "{ " + fn + " }"})
+					req := httptest.NewRequest("POST", "/query", strings.NewReader(string(body)))
+					req.Header.Set("Content-Type", "application/json")
+					router.ServeHTTP(rec, req)
+					refused := strings.Contains(rec.Body.String(), "Cannot query field") || strings.Contains(rec.Body.String(), "Schema is nil")
+					if refused == published[fn] && probeOK {
+						probeOK = false
+						probeDetail = fmt.Sprintf("after event %d (%s): probe { %s } refused=%v, published=%v: %s", e, hist[len(hist)-1], fn, refused, published[fn], rec.Body.String())
+					}
+				}
+			}
 			sort.Strings(pub)
 			var svcKeys []string
 			for u := range es.Services {
@@ -233,6 +262,7 @@ func runC10(cfg runCfg) error {
 			observed = append(observed, "{| ob_published := "+copt(es.MergedSchema != nil, clist(pub))+"; ob_gauge := "+cbool(invalidSchemaGauge() == 1)+
 				"; ob_tables_consistent := "+cbool(consistent)+"; ob_services := "+clist(statuses)+" |}")
 		}
+		sum.GoOracle = append(sum.GoOracle, oracleResult{Case: name, Component: "prop.c10.endpoint_validates_against_published_schema", OK: probeOK, Detail: probeDetail})
 		w.add(name, "{| pc_initial := "+cstrlist(initial)+"; pc_events := "+clist(events)+"; pc_observed := "+clist(observed)+" |}")
 		in := map[string]interface{}{"initial": initial, "events": events}
 		sum.CaseInputs[name] = in
